@@ -218,6 +218,38 @@ pub fn run(run: &Run) {
         }
     });
     run.bound("smooth catalogue", "20 analytic integrands × both orientations × 67 panel counts × 3 tolerances");
+    // narrow intervals on which the integrand is large: the width is of the order of the tolerance
+    // or below it, the integral is not
+    {
+        let narrow: Vec<(&str, fn(f64) -> f64, fn(f64, f64) -> f64, f64)> = vec![
+            ("exp", |x| x.exp(), |a, w| a.exp() * w.exp_m1(), 6.0),
+            ("exp", |x| x.exp(), |a, w| a.exp() * w.exp_m1(), 10.0),
+            ("x^3", |x| x * x * x, |a, w| {
+                let b = a + w;
+                ((DD::new(b) * DD::new(b) + DD::new(a) * DD::new(a)) * (DD::new(b) + DD::new(a)) * (DD::new(b) - DD::new(a)) * DD::new(0.25)).f()
+            }, -900.0),
+            ("1e6*x", |x| 1e6 * x, |a, w| {
+                let b = a + w;
+                (DD::new(5e5) * (DD::new(b) + DD::new(a)) * (DD::new(b) - DD::new(a))).f()
+            }, 1.0),
+        ];
+        for (name, f, exact_of, a) in narrow {
+            for &w in &[1e-3, 7.5e-4, 1e-6, 1e-9] {
+                for &eps in &[1e-3, 1e-6, 1e-12] {
+                    for rev in [false, true] {
+                        let b = a + w;
+                        let wexact = b - a; // the representable width
+                        let exact0 = exact_of(a, wexact);
+                        let (lo, hi, exact) = if rev { (b, a, -exact0) } else { (a, b, exact0) };
+                        run.case();
+                        run.nontrivial(1);
+                        let tol = 10.0 * eps * exact.abs().max(1.0) + 1e-13 + 1e-12 * exact.abs();
+                        judge(run, "romberg/tolerance/narrow-interval", guard(|| romberg(f, lo, hi, eps, 20)), exact, tol, &|| format!("romberg({}, a={}, b={}, eps={:e}, nmax=20)", name, lo, hi, eps));
+                    }
+                }
+            }
+        }
+    }
 
     // ---- sampled rule -----------------------------------------------------------------------
     let xl = [0.0, 1.0, 2.0, 3.0, 5.0, 8.0];
